@@ -4,7 +4,8 @@ Rule (stated, checked dynamically by tools/props/c16.py against /proc/<pid>/stat
      imports signal / sigaction / sigignore / sigset / bsd_signal / __sysv_signal (nm -u on build/plain/obj);
   2. in the clang AST of those units and of the binary's main unit, a call signal(SIGPIPE, SIG_IGN) or
      sigaction(SIGPIPE, &sa, ..) whose most recent assignment to .sa_handler in the same function is SIG_IGN counts,
-     provided its enclosing function is reachable from main through direct calls inside those units.
+     provided its enclosing function is reachable through direct calls inside those units from main, or from
+     vm_ffi_call_cop (the entry of every isolated extern call, reached from main through vm_execute).
 No regular expression over C text is involved."""
 import os, subprocess, json
 from genlib import run_dump, write_if_changed, GEN_DIR, REPO
@@ -89,8 +90,13 @@ def _ignoring_sites(fn, SIGPIPE, SIG_IGN):
     return sites
 
 
-def _reachable(funcs, root='main'):
-    seen, todo = set(), [root]
+# functions that run before the first write to the co-process pipe on every isolated extern call although the path from main
+# to them leaves the scanned units (main -> vm_execute -> ... -> TRAP_EXTERN_CALL -> vm_ffi_call_cop)
+EXTRA_ROOTS = {'nano_vm': ['vm_ffi_call_cop'], 'nano_vmd': ['vm_ffi_call_cop'], 'nano_cop': []}
+
+
+def _reachable(funcs, roots=('main',)):
+    seen, todo = set(), list(roots)
     while todo:
         f = todo.pop()
         if f in seen or f not in funcs:
@@ -143,7 +149,7 @@ def generate(b):
                 cache[s] = _tu_functions(b, s)
             for k, v in cache[s].items():
                 funcs.setdefault(k, v)
-        reach = _reachable(funcs)
+        reach = _reachable(funcs, ['main'] + EXTRA_ROOTS.get(name, []))
         sites = []
         for f in sorted(reach):
             sites += _ignoring_sites(funcs[f], SIGPIPE, SIG_IGN)
